@@ -2,3 +2,7 @@ import Cfdm.Model.PySlice
 import Cfdm.Model.Arr
 import Cfdm.Model.Indexing
 import Cfdm.Props.C03
+import Cfdm.Model.Settings
+import Cfdm.Props.C20
+import Cfdm.Props.C14
+import Cfdm.Props.C15
